@@ -2,6 +2,8 @@
 From MJ Require Import Common.Base C05.Model.
 Local Open Scope nat_scope.
 
+(* ---- the summary machine: one activation, calls taken as one step ---- *)
+
 (* one abstract step along ANY successor edge (both branch directions, loop exit and back
    edge, break/continue jumps) *)
 Inductive astep (C : list instr) : nat * shape -> nat * shape -> Prop :=
@@ -21,16 +23,47 @@ Definition stuck (C : list instr) (c : nat * shape) : Prop :=
 Definition ends (C : list instr) (c : nat * shape) : Prop :=
   fst c = length C \/ nth_error C (fst c) = Some IReturn.
 
-(* what a program point can observe of a shape: scope, capture depth, auto-escape depth *)
-Definition scope_of (s : shape) : list fk * nat * nat := (frames s, caps s, aes s).
-
-(* The property for one stream and its entry points: from every entry, along every path,
-   nothing is discarded that the path did not create, the pc stays inside the stream, every
-   end is reached with scope, capture and auto-escape depth as at entry, and the scope /
-   capture / auto-escape state at a program point does not depend on the path taken (so
+(* The property for one stream and its entry points, calls summarised: from every entry, along
+   every path, nothing is discarded that the path did not create, the pc stays inside the
+   stream, every end is reached with scope, capture and auto-escape depth as at entry and an
+   empty operand stack, and the shape at a program point does not depend on the path taken (so
    text after a construct is written to the same target whatever happened inside it). *)
 Definition balanced (C : list instr) (entries : list (nat * shape)) : Prop :=
   forall e c, In e entries -> astar C e c ->
     ~ stuck C c /\ fst c <= length C /\ (ends C c -> final_ok (snd c) = true) /\
     (forall e' c', In e' entries -> astar C e' c' -> fst c' = fst c -> fst c < length C ->
-       scope_of (snd c') = scope_of (snd c)).
+       snd c' = snd c).
+
+(* ---- the real machine: recursion calls enter the loop, PopLoopFrame returns ---- *)
+
+(* A configuration is a pc and the ABSOLUTE shape of the evaluation: all frames, captures,
+   auto-escape entries and operands the activation of eval_impl holds, those of every pending
+   recursion call included.  A call instruction has its summary successor (the callee was an
+   ordinary function) and, for every recursive loop of the stream, the successor "inside that
+   loop, one loop frame deeper, which remembers the return pc and whether to end a capture".
+   Returning is a local edge of [edges] (IPopLoopFrame on such a frame).  There is no bound on
+   the recursion depth. *)
+Inductive rstep (C : list instr) : nat * shape -> nat * shape -> Prop :=
+| rstep_intro pc s i ts t :
+    nth_error C pc = Some i -> edges i pc s = Some ts -> In t (ts ++ call_edges C i pc s) ->
+    rstep C (pc, s) t.
+
+Inductive rstar (C : list instr) : nat * shape -> nat * shape -> Prop :=
+| rstar_refl c : rstar C c c
+| rstar_step a b c : rstar C a b -> rstep C b c -> rstar C a c.
+
+(* from every entry, along every path of the real machine: never stuck, inside the stream, and
+   every end of the evaluation is reached with no frame, capture, auto-escape entry or operand
+   left - in particular with no recursion call pending *)
+Definition rbalanced (C : list instr) (entries : list (nat * shape)) : Prop :=
+  forall e c, In e entries -> rstar C e c ->
+    ~ stuck C c /\ fst c <= length C /\ (ends C c -> final_ok (snd c) = true).
+
+(* A recursion call gives back exactly what the call site expects.  [above n] = the frames of
+   the caller are untouched below the callee's.  If the real machine takes a call edge from
+   [c] and later comes back to the caller's frame depth for the first time at [d], then [d] is
+   the summary successor of the call: pc after the call site, the caller's frames, captures and
+   auto-escape entries as they were, the argument replaced by the result. *)
+Inductive rstar_above (C : list instr) (n : nat) : nat * shape -> nat * shape -> Prop :=
+| ra_refl c : n < length (frames (snd c)) -> rstar_above C n c c
+| ra_step a b c : rstar_above C n a b -> rstep C b c -> n < length (frames (snd c)) -> rstar_above C n a c.
